@@ -15,6 +15,8 @@ from ..common import AnalysisError
 def tu_check(tu):
     t = rg.c_range_table(tu)
     sn = seeknet.analyse(tu)
+    from ..rules import iternext
+    ia = iternext.analyse(tu)
     try:
         sa = rg.seek_algebra(tu)
     except AnalysisError as e:
@@ -35,17 +37,17 @@ def tu_check(tu):
     gh, ghf = pins.ghost_reads_in(tu, ["BTree_findRangeEnd", "BTree_rangeSearch", "Bucket_findRangeEnd", "Bucket_rangeSearch",
                                        "BTreeItems_seek", "BTree_maxminKey", "Bucket_maxminKey", "BTreeItems_item",
                                        "BTreeItems_slice", "BTreeItems_length_or_nonzero"])
-    bn["findings"] = bn["findings"] + ei["findings"] + fe["findings"] + mx["findings"] + rw["findings"] + sn["findings"] + gh
+    bn["findings"] = bn["findings"] + ei["findings"] + fe["findings"] + mx["findings"] + rw["findings"] + sn["findings"] + gh + ia["findings"]
     bn["rw"] = rw["n"]
     bn["fe"] = fe["n"]
     bn["mx"] = mx["n"]
     bn["ei"] = ei["stats"]["error_result_sites"]
-    return dict(rw=bn["rw"], mx=bn["mx"], fe=bn["fe"], ei=bn["ei"], cross={repr(k): v for k, v in cross.items()}, unb={repr(k): v for k, v in unb.items()}, range={repr(k): v for k, v in t.items()}, seek=sa, ghost_functions=ghf, seeknet=dict(n=sn["n"], kinds=sn["kinds"], dropped=sn["dropped"], returns=sn["returns"]), findings=bn["findings"], bn=bn["n"])
+    return dict(rw=bn["rw"], mx=bn["mx"], fe=bn["fe"], ei=bn["ei"], cross={repr(k): v for k, v in cross.items()}, unb={repr(k): v for k, v in unb.items()}, range={repr(k): v for k, v in t.items()}, seek=sa, iteradv=dict(n=ia["n"], kinds=ia["kinds"]), ghost_functions=ghf, seeknet=dict(n=sn["n"], kinds=sn["kinds"], dropped=sn["dropped"], returns=sn["returns"]), findings=bn["findings"], bn=bn["n"])
 
 
 def run(tier="quick", seed=0, use_cache=True):
     res = engine.Result("C02")
-    res.rules = ["RANGE-TABLE", "BOUND-NORM", "SEEK-ALGEBRA", "SEEK-NET", "ITER-CONTINUE", "TREE-EXCLUDE", "UNBOUNDED-END", "RANGE-SHAPE", "ENDS-CROSS", "ERR-IGNORED", "MINMAX-TABLE", "FINDEND-TABLE", "RANGE-WIRING", "GHOST-READ"]
+    res.rules = ["RANGE-TABLE", "BOUND-NORM", "SEEK-ALGEBRA", "SEEK-NET", "ITER-ADVANCE", "ITER-CONTINUE", "TREE-EXCLUDE", "UNBOUNDED-END", "RANGE-SHAPE", "ENDS-CROSS", "ERR-IGNORED", "MINMAX-TABLE", "FINDEND-TABLE", "RANGE-WIRING", "GHOST-READ"]
     res.exhaustive = True
     res.explanation = (
         "Leaf-level and cursor-level pieces of the range machinery, decided "
@@ -65,7 +67,10 @@ def run(tier="quick", seed=0, use_cache=True):
         "followed, each loop unrolled 3 times, contradictory paths dropped by "
         "bounds on linear forms); with base(leaf) the index of a leaf's first "
         "item every successful return must have committed pseudoindex == i "
-        "and base(committed leaf) + committed offset == i. GHOST-READ: the pin "
+        "and base(committed leaf) + committed offset == i. ITER-ADVANCE: BTreeIter_next, "
+        "interpreted the same way, parks the finger at (leaf, offset + 1) exactly "
+        "while offset + 1 < len and at (next leaf, 0) otherwise, and ends the "
+        "iteration only in the slice's last leaf. GHOST-READ: the pin "
         "typestate of C05 restricted to the range / seek / min-max functions and "
         "their helpers - an end point computed from a field of an unloaded leaf "
         "is not the end of the range. ITER-CONTINUE: the "
@@ -194,6 +199,9 @@ def run(tier="quick", seed=0, use_cache=True):
     res.count("SEEK-ALGEBRA", len(spec_seek) * len(out))
     res.count("GHOST-READ", sum(len(r["ghost_functions"]) for r in out.values()))
     res.floor("functions of the range machinery under the pin typestate (OO)", len(out["OO"]["ghost_functions"]), 8)
+    res.count("ITER-ADVANCE", sum(r["iteradv"]["n"] for r in out.values()))
+    res.floor("paths of BTreeIter_next that hand out an entry (OO)", out["OO"]["iteradv"]["n"], 3)
+    res.floor("kinds of advance seen in BTreeIter_next (OO: stay / next / end)", len(out["OO"]["iteradv"]["kinds"]), 3)
     res.count("SEEK-NET", sum(r["seeknet"]["n"] for r in out.values()))
     res.floor("successful paths of BTreeItems_seek interpreted (OO)", out["OO"]["seeknet"]["n"], 10)
     res.floor("kinds of moves seen by SEEK-NET (OO: within / next / prev)", len(out["OO"]["seeknet"]["kinds"]), 3)
